@@ -83,7 +83,7 @@ impl<'a> EnumMessage<'a> {
         let phantom_variant = msg_ty.emit_phantom_variant(used_generics);
         let phantom_match_arm = match !used_generics.is_empty() {
             true => quote! {
-                _Phantom(_) => Err(#sylvia ::cw_std::StdError::generic_err("Phantom message should not be constructed.")).map_err(Into::into),
+                Self :: _Phantom(_) => Err(#sylvia ::cw_std::StdError::generic_err("Phantom message should not be constructed.")).map_err(Into::into),
             },
             false => quote! {},
         };
@@ -101,8 +101,6 @@ impl<'a> EnumMessage<'a> {
 
             impl #bracketed_used_generics #enum_name #bracketed_used_generics {
                 pub fn dispatch #bracketed_unused_generics (self, contract: &#contract, ctx: #ctx_type) -> #ret_type #where_clause {
-                    use #enum_name::*;
-
                     match self {
                         #(#match_arms,)*
                         #phantom_match_arm
